@@ -27,7 +27,7 @@ CLAIMED["C07"] = dict(cat="exploration", ref="DESIGN.md 3.6",
    tech="deterministic simulation: seeded scheduler over simulated workers + crash at record boundary and restart, conservation oracle against recording components")
 CLAIMED["C02"] = dict(cat="fault_enumeration", ref="DESIGN.md 3.2",
    text="Crash-point enumeration: for each sampled (experiment, configuration, schedule) the finished transaction log (plain or .gz, written by simulated workers so the record order is schedule dependent) is cut at crash offsets and resumed by a freshly built identical experiment with recording evaluators; quick tier: every record boundary, +-1/+-2 bytes, byte before each newline, three interior offsets per record, n in {0,1}; thorough tier additionally enumerates every byte offset 0..len(F) for a quarter of the logs; second-generation crashes and resumes on simulated workers are sampled. Oracle: resumed run returns normally, Result equals the uninterrupted one, no restored triple is evaluated again, no record is written twice, the file is readable afterwards.",
-   note="Trusted base: a crash leaves a byte-prefix of the flushed stream (durability below flush() is out of reach); a resume killed inside the repair of a torn log is produced by a real forked process that is os._exit()ed before a PRNG-chosen C call inside Experiment._restore (sampled, not enumerated), and additionally modelled as a byte-prefix of the '<file>.partial' rewrite; simulated multiprocessing as C01; experiments/schedules are sampled, only the crash offset dimension is enumerated (every offset for logs <= 8 KB in a quarter of the thorough runs); one known finding (zero-row triples are re-evaluated) is listed in known_findings.json.",
+   note="Trusted base: a crash leaves a byte-prefix of the flushed stream (durability below flush() is out of reach); a resume killed inside the repair of a torn log is produced by a real forked process that is os._exit()ed before a PRNG-chosen C call inside Experiment._restore (sampled, not enumerated), and additionally modelled as a byte-prefix of the '<file>.partial' rewrite; simulated multiprocessing as C01; experiments/schedules are sampled, only the crash offset dimension is enumerated (every offset for logs <= 8 KB in a quarter of the thorough runs); two known findings (zero-row triples are re-evaluated; the same Experiment object run again in the same process after Ctrl-C evaluates a partly trained learner) are listed in known_findings.json.",
    tech="deterministic simulation with crash-point enumeration: log written under a seeded schedule, every chosen byte-prefix restarted, history oracle over recording evaluators and the resulting file")
 CLAIMED["C12"] = dict(cat="fault_enumeration", ref="DESIGN.md 3.8",
    text="Delivery and disk clauses only. A simulated HTTP transport replaces urlopen(); for every generated payload (adversarial texts with LF/CRLF/lone CR/other Unicode line boundaries and 2-4 byte characters; small tables in common-dialect CSV/ARFF/LibSVM/Manik) the real HttpSource->_byte_it_->DelimSource path is run for EVERY chunk_size 1..len+1 under identity, gzip and deflate content encodings (the whole delivery space of the public API) plus seeded short-read schedules; lines must equal text.splitlines(); tables are additionally parsed by the real readers after delivery. DiskSink->DiskSource round trips (plain/.gz, all batch settings, several writes) must be identical.",
